@@ -119,11 +119,11 @@ func (server *Server) Start() error {
 
 // Stop stops the server.
 func (server *Server) Stop() error {
-	if err := server.ConnManager.Stop(); err != nil {
+	if err := server.close(); err != nil {
 		return err
 	}
 
-	if err := server.close(); err != nil {
+	if err := server.ConnManager.Stop(); err != nil {
 		return err
 	}
 
